@@ -25,7 +25,8 @@ theorem gen_no_extraction_failure : Dtn7.Gen.C13.extractionFailures = [] := by d
 
 /-- The code variant (see `Dtn7.Props.C05.gen_variant`). -/
 theorem gen_variant :
-    Dtn7.Gen.C13.seqAssignedFirst = true ∧ Dtn7.Gen.C13.expiryCountsFromNow = true ∧
+    Dtn7.Gen.C13.seqAssignedFirst = true ∧ Dtn7.Gen.C13.sendBundleSkipsStored = true ∧
+    Dtn7.Gen.C13.expiryCountsFromNow = true ∧
     Dtn7.Gen.C13.dtlsrReportsFailure = true ∧ Dtn7.Gen.C13.dispatchingHoldsRefused = true := by decide
 
 set_option maxRecDepth 16384 in
